@@ -111,6 +111,9 @@ def check(case, ctx):
     if gone:
         return
     cell = [x + 0.0 for x in case["cell"]]
+    if S.is_int_typed(case["cell"]):
+        cell = [int(x) for x in case["cell"]]        # whole-number cell typed as ints, handed to both modules alike
+        ctx.event("integer-typed-cell")
     U = O.ro(S.build_rotation(case["rot"]) + 0.0)
     h = case["hkl"]
     eps = [x + 0.0 for x in case["eps"]]
